@@ -75,6 +75,16 @@ def tags_of(ri, tag):
 def phases_of(tagmap):
     return tuple(sorted(set(tagmap.values())))
 
+def reset_reaction_globals():
+    """process-global state of the reaction package that must not leak between executions"""
+    fx.reset_globals()
+    import thermosteam.reaction as R
+    R.CHECK_FEASIBILITY = True
+
+def feasibility_flag():
+    import thermosteam.reaction as R
+    return bool(R.CHECK_FEASIBILITY)
+
 # ---- packages -------------------------------------------------------------------------------------
 
 PKG_ORDER = {
